@@ -196,6 +196,62 @@ def C02(c):
         hi = rng.choice([10, 16, 20, 40])
         four.append({"alg": a, "vals": [rng.randint(1, hi) for _ in range(n)], "p": {"k": 5 if (n == 7 and rng.random() < 0.3) else 4}})
     c.corr("four-bins-ties", four, combos_of(["list"], [PT]), judge=judge)
+    # complete Karmarkar-Karp's search itself: for every heap the implementation pops, (number of bins-arrays in it, all their sums,
+    # the lower bound computed for it) - recorded by wrapping _possible_partition_difference_lower_bound from outside - against the trace
+    # of the model (ckkFT; CKKFTrace.ckkFT_fst: dropping the trace gives ckkF).  Both managers, list and named input.
+    import importlib
+    ckkm = importlib.import_module("prtpy.partitioning.complete_karmarkar_karp_sy")
+    tcases = [e for e in rnd + four + many[: c.n(60, 600)] if e["alg"] == "ckk" and e["p"]["k"] >= 2 and e["vals"]][: c.n(260, 2600)]
+    reqs, ctx = [], []
+    for e in tcases:
+        for fmt, ot in (("list", "Sums"), ("list", PT), ("dict_str", PT)):
+            names = names_for(fmt, e["vals"], random.Random(sha([e["vals"], fmt])))
+            ids = ids_for(fmt, e["vals"], names)
+            line = "ckk_trace " + ALGS["ckk"].request(e, ids, contents=(ot == PT), outtype="Sums").split(" ", 1)[1]
+            reqs.append(line); ctx.append((e, fmt, ot, names))
+    answers = model_query(reqs)
+    for (e, fmt, ot, names), line, ans in zip(ctx, reqs, answers):
+        calls = []
+        orig = ckkm._possible_partition_difference_lower_bound
+
+        def rec(current_heap, numbins, calls=calls, orig=orig):
+            lb = orig(current_heap, numbins)
+            flat = sorted(num(x) for b in current_heap.iterator() for x in current_heap.binner.sums(b))
+            calls.append([len(current_heap), flat, num(lb)])
+            return lb
+
+        def run(e=e, fmt=fmt, ot=ot, names=names):
+            ckkm._possible_partition_difference_lower_bound = rec
+            try:
+                items, valueof = present(fmt, e["vals"], names)
+                kw = {"valueof": valueof} if valueof is not None else {}
+                return prtpy.partition(algorithm=ckkm.optimal, numbins=e["p"]["k"], items=items, outputtype=out.SortedSums, **kw) if ot == "Sums" else \
+                    sorted(sum(e["vals"][names.index(x)] if fmt != "list" else x for x in b) for b in
+                           prtpy.partition(algorithm=ckkm.optimal, numbins=e["p"]["k"], items=items, outputtype=out.Partition, **kw))
+            finally:
+                ckkm._possible_partition_difference_lower_bound = orig
+        try:
+            r = timed(run)
+            got = r if isinstance(r, dict) else {"sums": [num(x) for x in r], "trace": calls}
+        except Exception as ex:      # noqa
+            got = {"error": exc_name(ex)}
+        finally:
+            ckkm._possible_partition_difference_lower_bound = orig
+        c.evaluations += 1
+        if isinstance(got, dict) and got.get("error") == "Timeout":
+            c.call_timeouts += 1
+            continue
+        want = ans["result"] if (isinstance(ans.get("result"), dict) and "error" in ans["result"]) else {"sums": sorted(ans["result"]), "trace": ans["trace"]}
+        c.corr_cases += 1
+        c.stats["ckk-search-trace"]["cases"] += 1
+        c.stats["ckk-search-trace"][f"{fmt}/{ot}"] += 1
+        c.distinct.add(line)
+        if len(want.get("trace", [])) >= 5:
+            c.nontrivial.add(line)
+        if got != want:
+            c.disagreements.append({"stream": "ckk-search-trace", "alg": "ckk", "case": {"vals": e["vals"], "p": e["p"]}, "fmt": fmt, "outtype": ot,
+                                    "impl": got, "model": want, "request": line})
+        c.sample({"request": line, "impl": got, "model": want})
 
 
 # ------------------------------------------------------------------------------------------------ C04
@@ -741,7 +797,45 @@ def C20(c):
                     return num(objective_impl(o).value_to_minimize(_seq_as(kind, sums), are_sums_in_ascending_order=bool(flag)))
                 triples.append((f"objvalue obj={o} sorted={flag} sums={f_nats(sums)}", thunk,
                                 {"alg": "objective.value_to_minimize", "vals": sums, "obj": o, "sorted": flag, "seq": kind}))
+    # sums at the edge of machine integers (a total of 2^63 or 2^64 and more while every single sum is below it): Python integers are
+    # exact, so lists and tuples of them must give the exact documented value (arrays of such values are numpy's business and are not used)
+    for _ in range(c.n(150, 1500)):
+        n = rng.randint(2, 6)
+        base = rng.choice([2 ** 61, 2 ** 62, 2 ** 62, 2 ** 63 - 8, 2 ** 63, 2 ** 64 - 8])
+        sums = [rng.choice([base + rng.randint(0, 7), base + rng.randint(0, 7), rng.randint(0, 9)]) for _ in range(n)]
+        is_sorted = all(sums[i] <= sums[i + 1] for i in range(n - 1))
+        for o in ["maxmin", "minmax", "diff", f"ksmall:{rng.randint(2, n + 1)}", f"klarge:{rng.randint(2, n + 1)}"]:
+            kind = rng.choice(["list", "tuple"])
+            try:
+                got = num(objective_impl(o).value_to_minimize(_seq_as(kind, sums)))
+            except Exception as ex:     # noqa
+                got = {"error": exc_name(ex)}
+            c.check_direct("objective.value_to_minimize", {"vals": sums, "obj": o, "seq": kind}, "documented-quantity", got == obj_value(o, sums), got,
+                           f"documented function of the sums: {obj_value(o, sums)}")
+            for flag in ([0, 1] if is_sorted else [0]):
+                kind = rng.choice(["list", "tuple"])
+                def thunk(o=o, sums=sums, flag=flag, kind=kind):
+                    return num(objective_impl(o).value_to_minimize(_seq_as(kind, sums), are_sums_in_ascending_order=bool(flag)))
+                triples.append((f"objvalue obj={o} sorted={flag} sums={f_nats(sums)}", thunk,
+                                {"alg": "objective.value_to_minimize", "vals": sums, "obj": o, "sorted": flag, "seq": kind}))
     c.direct("objective-values", triples, nontrivial=lambda label, ans: len(set(label["vals"])) >= 2)
+    # ONE objective object evaluated on a sequence of vectors (as every algorithm does with the object it is given): vectors with fewer
+    # bins than k first, longer ones afterwards - the value must not depend on what the object was asked before
+    for _ in range(c.n(200, 2000)):
+        k = rng.randint(1, 6)
+        o = rng.choice([f"ksmall:{k}", f"klarge:{k}", "maxmin", "minmax", "diff"])
+        ob = objective_impl(o)
+        seq = [gen.rand_vals(rng, rng.randint(1, max(1, k - 1)), "small") for _ in range(rng.randint(1, 2))] + \
+              [gen.rand_vals(rng, rng.randint(k, k + 4), "small") for _ in range(rng.randint(1, 3))]
+        rng.shuffle(seq) if rng.random() < 0.3 else None
+        hist = []
+        for sums in seq:
+            srt = rng.random() < 0.4
+            v = sorted(sums) if srt else list(sums)
+            got = num(ob.value_to_minimize(_seq_as(rng.choice(["list", "tuple", "array"]), v), are_sums_in_ascending_order=srt))
+            hist.append(v)
+            c.check_direct("objective.value_to_minimize", {"vals": v, "obj": o, "sorted": int(srt), "earlier_calls_on_the_same_object": list(hist[:-1])},
+                           "documented-quantity-after-earlier-calls", got == obj_value(o, sums), got, f"documented function of the sums: {obj_value(o, sums)}")
     # the documented quantity, computed independently, on the implementation's own answers
     for sums in vecs[: c.n(3000, 30000)]:
         n = len(sums)
